@@ -38,6 +38,10 @@ def main(argv):
         d = os.path.join(SEEDED, name)
         meta = json.load(open(os.path.join(d, 'meta.json')))
         pid = meta['property']
+        if meta.get('obsolete_after'):
+            results[name] = {'property': pid, 'status': 'obsolete', 'detail': 'code replaced by fix %s' % meta['obsolete_after']}
+            print('%-14s %s obsolete after %s' % (name, pid, meta['obsolete_after']))
+            continue
         wt = '/tmp/seedrun_%s_%d' % (name, os.getpid())
         sh('git -C /repo worktree remove --force %s' % wt)
         r = sh('git -C /repo worktree add -q %s HEAD' % wt)
